@@ -1035,14 +1035,15 @@ func callBuiltin(caller *frame, callpos token.Pos, fn *ssa.Builtin, args []value
 			return append(arg0, strBytes(args[1])...)
 		}
 		// append([]T, ...[]T) []T
-		return append(args[0].([]value), args[1].([]value)...)
+		// (struct and array elements are values: copy them, do not alias)
+		return append(args[0].([]value), copyElems(args[1].([]value))...)
 
 	case "copy": // copy([]T, []T) int or copy([]byte, string) int
 		src := args[1]
 		if isStr(src) {
 			src = strBytes(src)
 		}
-		return copy(args[0].([]value), src.([]value))
+		return copy(args[0].([]value), copyElems(src.([]value)))
 
 	case "close": // close(chan T)
 		c, _ := args[0].(*mchan)
@@ -1621,4 +1622,43 @@ func fandbits[F floaty](x, y F) F {
 		*(*uint64)(unsafe.Pointer(&x)) &= *(*uint64)(unsafe.Pointer(&y))
 	}
 	return x
+}
+
+// copyVal copies a value with Go value semantics: structs and arrays are
+// duplicated (recursively); everything else is a scalar or a reference.
+func copyVal(v value) value {
+	switch x := v.(type) {
+	case structure:
+		out := make(structure, len(x))
+		for i := range x {
+			out[i] = copyVal(x[i])
+		}
+		return out
+	case array:
+		out := make(array, len(x))
+		for i := range x {
+			out[i] = copyVal(x[i])
+		}
+		return out
+	}
+	return v
+}
+
+func copyElems(src []value) []value {
+	need := false
+	for _, e := range src {
+		switch e.(type) {
+		case structure, array:
+			need = true
+		}
+		break
+	}
+	if !need {
+		return src
+	}
+	out := make([]value, len(src))
+	for i := range src {
+		out[i] = copyVal(src[i])
+	}
+	return out
 }
